@@ -78,6 +78,7 @@ def run(ctx):
     exps = []
     hits_total = 0
     evicting = 0
+    slow_skipped = 0
     samples = []
     try:
         for gi in range(n_gr):
@@ -92,10 +93,18 @@ def run(ctx):
             # cold, unlimited twin: caches cleared before every request
             P.ParseCache.max_cache_size = None
             cls0, rules0 = G.build(P, gr)
-            cold = {}
-            for q in set(reqs):
-                P.ParseCache.clear_caches()
-                cold[q] = request(P, rules0[0], *q)
+            # a grammar on which the real code needs more than a few CPU seconds for these short inputs is a matter for
+            # C12 (work bound, known finding F14): skipped and counted
+            def cold_run():
+                out = {}
+                for q in set(reqs):
+                    P.ParseCache.clear_caches()
+                    out[q] = request(P, rules0[0], *q)
+                return out
+            cold = ec.with_budget(3 * ec.CASE_BUDGET_S, cold_run, None)
+            if cold is None:
+                slow_skipped += 1
+                continue
             # history run
             lim0 = rng.choice([None, 1, 2, 3])
             P.ParseCache.max_cache_size = lim0
@@ -147,6 +156,7 @@ def run(ctx):
                     csamples.append({"grammar": gr, "request": q, "implementation": got, "model": ln})
     ctx.corr_samples = csamples
     ctx.coverage.update({
+        "slow_grammars_skipped": slow_skipped,
         "evaluations": evals,
         "distinct_nontrivial": evicting,
         "rule": "per generated grammar: 8-30 requests (lparse/parse/parse_all over 5-9 sources that share suffixes, random offsets) interleaved with clear_caches() "
